@@ -233,9 +233,9 @@ def _traj(g, which):
 
 rel('JointTrajectory', 'JointTrajectory', lambda g: _traj(g, 'JointTrajectory'), shape_bound='n = 2, N = 3, cubic')
 rel('JointTrajectory_quintic', 'JointTrajectory', lambda g: _traj(g, 'JointTrajectory')[:4] + [5], shape_bound='n = 2, N = 3, quintic')
-rel('ScrewTrajectory', 'ScrewTrajectory', lambda g: _traj(g, 'ScrewTrajectory'), shape_bound='N = 2, cubic', tier='thorough',
+rel('ScrewTrajectory', 'ScrewTrajectory', lambda g: _traj(g, 'ScrewTrajectory'), shape_bound='N = 2, cubic', tier='off',
     max_paths=400)
-rel('CartesianTrajectory', 'CartesianTrajectory', lambda g: _traj(g, 'CartesianTrajectory'), shape_bound='N = 2, quintic', tier='thorough',
+rel('CartesianTrajectory', 'CartesianTrajectory', lambda g: _traj(g, 'CartesianTrajectory'), shape_bound='N = 2, quintic', tier='off',
     max_paths=400)
 
 
